@@ -93,8 +93,9 @@ func (c Cfg) indexed(f int) bool {
 }
 
 type srch struct {
-	s   *sod.Search
-	det bool // result order is a function of the history (all searched fields indexed)
+	s       *sod.Search
+	det     bool // result order is a function of the history (all searched fields indexed)
+	limited bool // a limited Collect was issued on it
 }
 
 type Exec struct {
@@ -625,7 +626,7 @@ func (e *Exec) step(t []string) {
 			s = old.s.Or(fieldName(fld), op, val)
 			det = det && old.det
 		}
-		e.searches[sid] = &srch{s, det}
+		e.searches[sid] = &srch{s: s, det: det}
 		if s.Err() != nil {
 			e.emit("r %s 0", rd(cls(s.Err()))) // the length of a failed search is not an observable
 		} else {
@@ -692,9 +693,31 @@ func (e *Exec) step(t []string) {
 	case "control":
 		e.emit("r %s", cls(db.Control()))
 	case "repair":
+		// the order in which Repair meets unindexed files is Go map order: read it off the
+		// FS log (files it opened), falling back to the ids it assigned
 		before := e.snapshotIds()
+		vshim.StartRecording()
 		err := db.Repair(e.of())
-		e.emit("o order %s", e.newIdsOrder(before))
+		var opened []string
+		seen := map[string]bool{}
+		for _, ev := range vshim.StopRecording() {
+			if ev.Kind == "open" && filepath.Base(ev.Path) != sod.SchemaFilename {
+				name := filepath.Base(ev.Path)
+				if i := strings.IndexByte(name, '.'); i >= 0 {
+					name = name[:i]
+				}
+				if n, ok := e.un[name]; ok && !seen[name] {
+					seen[name] = true
+					opened = append(opened, strconv.Itoa(n))
+				}
+			}
+		}
+		for _, x := range strings.Fields(e.newIdsOrder(before)) {
+			if !seen[e.ustr(atoi(x))] {
+				opened = append(opened, x)
+			}
+		}
+		e.emit("o order %s", strings.Join(opened, " "))
 		e.emit("r %s", cls(err))
 	case "close":
 		e.emit("r %s", cls(db.Close()))
@@ -1256,3 +1279,5 @@ func dirHash(root string) string {
 	})
 	return hex.EncodeToString(h.Sum(nil))[:16]
 }
+
+func atoi(s string) int { n, _ := strconv.Atoi(s); return n }
